@@ -12,6 +12,28 @@ NOTE = ("Trusted: Coq 8.16.1 kernel (full .vo build, vm_compute for finite sweep
         "regenerated from /repo on every run (defs.jq parse trees, native registry). Third-party crates are modelled by contract.")
 
 CLAIMED = {
+    "C02": ("Theorems: evaluating an exploded path for paths projects onto evaluating it for values (same values, order, terminator, "
+            "optional parts included); .[] enumerates positions and values consistently. Correspondence: path expressions (exhaustive "
+            "to depth 2 over 14 atoms, random beyond) x small inputs through [p], path(p), path_value(p), p |= u and the assignment "
+            "forms, implementation vs model. Oracle on the implementation: path/path_value/getpath agreement, the manual's reduction "
+            "rules for |= as program equations, iter_upd/index_upd/slice_upd of the manual, value-constructing expressions fail. "
+            "Partial: getpath(path(p)) and the update table are not yet proved over the whole interpreter.", "7.2",
+            "Coq proof (path level) + model/implementation correspondence + in-language identities"),
+    "C10": ("Theorems: abs_index selects exactly the positions inside (negatives from the end), slice bounds are clipped into [0,len] "
+            "with non-negative length, open bounds give the whole sequence. Correspondence + Python list-model oracle: exhaustive "
+            "arrays/strings of length 0-4 (multi-byte and invalid UTF-8), positions in [-6,6], null and wrongly typed positions, "
+            "huge integers, updates with 0/1/2 outputs, slices, objects with arbitrary keys and order of untouched keys.", "7.10",
+            "Coq proof + model/implementation correspondence + Python reference position model"),
+    "C11": ("Theorems: limit(n;f) ++ skip(n;f) = f for every machine-integer count and every stream (error/break/out-of-fuel "
+            "terminated included), non-positive counts, first = limit 1, nothing follows the first error. Correspondence + oracle: the "
+            "manual's defining equations (limit/skip/first/last/nth/isempty/any/all/add/range/repeat/recurse/while/until/select/"
+            "reduce/foreach expansions) as program pairs with equal output streams.", "7.11",
+            "Coq proof + model/implementation correspondence + defining-equation oracle"),
+    "C12": ("Theorems: the stable sort of the model returns a permutation of its input of equal length. Correspondence + oracle: "
+            "50 documented equations (sort_by/group_by/unique_by/min_by/max_by/keys/entries/indices/flatten/transpose/paths/pick/"
+            "walk/del/join/trimstr/tonumber/...) as program pairs on arrays/objects with duplicates, ties, mixed types, empties and "
+            "non-string keys, plus Python references for sort/unique/indices.", "7.12",
+            "Coq proof (sort) + model/implementation correspondence + documented-equation oracle"),
     "C01": ("Model: the compiler (Core/Compile.v, mirrors compile.rs incl. Locals and the Tr/CallType analysis) and the interpreter "
             "(Core/Run.v, mirrors filter.rs/path.rs/fold.rs/funs.rs for run, paths and update) over the value model. Tie: the model's "
             "prelude is regenerated from the three defs.jq and the native registry of /repo on every run; compiled look-up tables of "
